@@ -1,6 +1,7 @@
 import FFVerif.Props.C10
 import FFVerif.Props.C10Asm
 import FFVerif.Props.C07
+import FFVerif.Pins.pinFrequencyShifts
 #print axioms FFVerif.C10.nested_global
 #print axioms FFVerif.C10.secondOrderEntry_unfold
 #print axioms FFVerif.C10.secondOrder_case1
@@ -26,3 +27,4 @@ import FFVerif.Props.C07
 #print axioms FFVerif.C07.cleanup_freq
 #print axioms FFVerif.C07.getFF_spec
 #print axioms FFVerif.C07.served_value_is_fresh
+#print axioms FFVerif.Pins.pinFrequencyShifts
